@@ -50,7 +50,9 @@ func (p *pMsg) Get(fd protoreflect.FieldDescriptor) protoreflect.Value {
 	p.y.Point("Get")
 	return wrapV(fd, p.m.Get(fd), p.y)
 }
-func (p *pMsg) Set(protoreflect.FieldDescriptor, protoreflect.Value) { panic("proxy: write through a reader") }
+func (p *pMsg) Set(protoreflect.FieldDescriptor, protoreflect.Value) {
+	panic("proxy: write through a reader")
+}
 func (p *pMsg) Mutable(protoreflect.FieldDescriptor) protoreflect.Value {
 	panic("proxy: write through a reader")
 }
@@ -79,12 +81,12 @@ func (p *pList) Get(i int) protoreflect.Value {
 	}
 	return v
 }
-func (p *pList) Set(int, protoreflect.Value)         { panic("proxy: write through a reader") }
-func (p *pList) Append(protoreflect.Value)           { panic("proxy: write through a reader") }
-func (p *pList) AppendMutable() protoreflect.Value   { panic("proxy: write through a reader") }
-func (p *pList) Truncate(int)                        { panic("proxy: write through a reader") }
-func (p *pList) NewElement() protoreflect.Value      { return p.l.NewElement() }
-func (p *pList) IsValid() bool                       { return p.l.IsValid() }
+func (p *pList) Set(int, protoreflect.Value)       { panic("proxy: write through a reader") }
+func (p *pList) Append(protoreflect.Value)         { panic("proxy: write through a reader") }
+func (p *pList) AppendMutable() protoreflect.Value { panic("proxy: write through a reader") }
+func (p *pList) Truncate(int)                      { panic("proxy: write through a reader") }
+func (p *pList) NewElement() protoreflect.Value    { return p.l.NewElement() }
+func (p *pList) IsValid() bool                     { return p.l.IsValid() }
 
 type pMap struct {
 	m  protoreflect.Map
@@ -123,7 +125,9 @@ func (p *pMap) Get(k protoreflect.MapKey) protoreflect.Value {
 	}
 	return v
 }
-func (p *pMap) Set(protoreflect.MapKey, protoreflect.Value)  { panic("proxy: write through a reader") }
-func (p *pMap) Mutable(protoreflect.MapKey) protoreflect.Value { panic("proxy: write through a reader") }
-func (p *pMap) NewValue() protoreflect.Value                 { return p.m.NewValue() }
-func (p *pMap) IsValid() bool                                { return p.m.IsValid() }
+func (p *pMap) Set(protoreflect.MapKey, protoreflect.Value) { panic("proxy: write through a reader") }
+func (p *pMap) Mutable(protoreflect.MapKey) protoreflect.Value {
+	panic("proxy: write through a reader")
+}
+func (p *pMap) NewValue() protoreflect.Value { return p.m.NewValue() }
+func (p *pMap) IsValid() bool                { return p.m.IsValid() }
